@@ -80,6 +80,17 @@ fn check_file(rows: &[&RowSpec], lead: &str, st: &mut Stats) {
     st.states += 1;
     st.transitions += 1;
     let case = || json!({"kind": "lex_csv", "lex.csv": text, "matrix.def": MATRIX, "char.def": CHARDEF, "unk.def": UNK});
+    // a U+FEFF at the very beginning of the file is a byte-order mark to the CSV reader
+    // (csv-core strips it), not part of the first field; anywhere else it is an ordinary character
+    let mut adjusted: Vec<RowSpec> = rows.iter().map(|r| (*r).clone()).collect();
+    if text.starts_with('\u{FEFF}') {
+        if let Some(rest) = adjusted[0].surface.strip_prefix('\u{FEFF}') {
+            adjusted[0].surface = rest;
+            st.count("files_starting_with_a_byte_order_mark");
+        }
+    }
+    let rows: Vec<&RowSpec> = adjusted.iter().collect();
+    let rows = &rows[..];
     let expected: Vec<&&RowSpec> = rows.iter().filter(|r| !r.surface.is_empty()).collect();
     if expected.is_empty() {
         // a lexicon without any word is rejected by the trie builder; C11 is about the words
@@ -269,7 +280,40 @@ pub fn run(tier: Tier) -> i32 {
             st.count("files_with_many_homographs");
         }
     }
-    rep.rule = "state = lexicon CSV file of 1-3 rows, each row the product of a raw surface field (plain, with space, quoted with comma, quoted with doubled quote, gratuitously quoted, multi-byte, empty), an id/cost combination (incl. extremes and a quoted number), a raw feature tail (plain, several cells, quoted cell with comma, stray quote, empty, '*', quoted cell with a line break, spaces and empty cells) and a row terminator (LF, CRLF, none at EOF, LF LF), optionally after a leading blank line; plus every sequence of up to 6/7 rows over the surfaces {a, ab, b} (homographs adjacent, separated, interleaved); built by the real builder; oracle: one word per non-empty-surface row in order, feature == raw tail byte for byte, lexicon candidates of each surface == its homograph multiset; the expected values come from the generating structure, no parser involved; distinct = distinct expected word lists".into();
+    // text-level corners: surfaces and feature tails with characters that mean something to SOME
+    // reader of the tool chain (comment marks, byte-order mark, half/full-width forms, leading and
+    // trailing blanks, TAB, NBSP, U+3000, separators of other files), alone, before and after an
+    // ordinary row, with every terminator
+    {
+        const SPECIAL_SURFACES: [(&str, &str); 16] = [
+            ("#x", "#x"), ("#", "#"), ("\u{FEFF}x", "\u{FEFF}x"), ("\u{FF71}x", "\u{FF71}x"), ("\u{FF21}", "\u{FF21}"), ("\u{FFFE}", "\u{FFFE}"),
+            (" x", " x"), ("x ", "x "), ("\tx", "\tx"), ("x\u{3000}", "x\u{3000}"), ("\"#q\"", "#q"), ("//x", "//x"), ("[x]", "[x]"),
+            ("*", "*"), ("$1", "$1"), ("\u{00A0}", "\u{00A0}"),
+        ];
+        const SPECIAL_TAILS: [&str; 14] = [
+            "f ", "f\t", "f\u{3000}", " f", "f,g ", "f,\u{3000}", "\"q\" ", "#f", "f\u{00A0}", "\"l1\nl2\"", "\"l1\r\nl2\",w", "\"l1\rl2\"", "\u{FEFF}", "f\u{0085}",
+        ];
+        let plain = RowSpec { raw_surface: "a", surface: "a", left_raw: "0", left: 0, right: 1, cost: 3, tail: "plain", term: "\n" };
+        let mut specials: Vec<RowSpec> = vec![];
+        for (rs, sf) in SPECIAL_SURFACES {
+            for tm in TERMS {
+                specials.push(RowSpec { raw_surface: rs, surface: sf, left_raw: "1", left: 1, right: 0, cost: -2, tail: "f,g", term: tm });
+            }
+        }
+        for t in SPECIAL_TAILS {
+            for tm in TERMS {
+                specials.push(RowSpec { raw_surface: "ab", surface: "ab", left_raw: "1", left: 1, right: 1, cost: 9, tail: t, term: tm });
+            }
+        }
+        for sp in &specials {
+            st.count("files_with_special_characters");
+            check_file(&[sp], "", &mut st);
+            check_file(&[&plain, sp], "", &mut st);
+            check_file(&[sp, &plain], "", &mut st);
+            check_file(&[sp, sp], "", &mut st);
+        }
+    }
+    rep.rule = "state = lexicon CSV file of 1-3 rows, each row the product of a raw surface field (plain, with space, quoted with comma, quoted with doubled quote, gratuitously quoted, multi-byte, empty), an id/cost combination (incl. extremes and a quoted number), a raw feature tail (plain, several cells, quoted cell with comma, stray quote, empty, '*', quoted cell with a line break, spaces and empty cells) and a row terminator (LF, CRLF, none at EOF, LF LF), optionally after a leading blank line; plus every sequence of up to 6/7 rows over the surfaces {a, ab, b} (homographs adjacent, separated, interleaved); plus 16 special surfaces ('#', byte-order mark, half/full-width forms, leading/trailing blanks, TAB, U+3000, NBSP, '*', '$1', '//', '[x]') and 14 special feature tails (trailing blank / TAB / U+3000 / NBSP / NEL, quoted line breaks, '#f') alone, before, after an ordinary row and doubled, with every terminator; built by the real builder; oracle: one word per non-empty-surface row in order, feature == raw tail byte for byte, lexicon candidates of each surface == its homograph multiset; the expected values come from the generating structure, no parser involved; distinct = distinct expected word lists".into();
     rep.bounds = json!({"row_menu_2": n2, "row_menu_3": n3, "three_row_files": tier.pick("diagonal slice", "all")});
     if tier == Tier::Quick {
         rep.cap_note = Some("three-row files: a deterministic diagonal slice in the quick tier; one- and two-row files complete".into());
@@ -285,6 +329,7 @@ pub fn run(tier: Tier) -> i32 {
             "surfaces_looked_up",
             "surface_order_files",
             "files_with_many_homographs",
+            "files_with_special_characters",
         ],
     )
 }
